@@ -323,15 +323,18 @@ def select(kinds, tier, seed, op, forms):
         return [(k, list(forms)) for k in kinds]
     rnd = random.Random("%s-%s" % (seed, op))
     core = next((k for k in ("i8", "u8", "bool") if k in kinds), kinds[0])
-    sel = {k: [forms[0]] for k in kinds}
+    # the loop-free scalar form: the core kind plus three representative widths/classes (every kind in the thorough tier);
+    # measured: all 12 kinds x 9 operators cost ~3500 CPU-s, which put the quick check beyond 13 minutes
+    quick_scalar = [k for k in kinds if k in (core, "u16", "i64", "f64")]
+    sel = {k: ([forms[0]] if k in quick_scalar else []) for k in kinds}
     # one form per kernel macro (_op, _scalar_rhs_op, _scalar_lhs_op, _vec_op, _mat_vec_op, _vec_mat_op, _mat_row_op,
     # _row_mat_op); the remaining six forms re-use those macros on another storage type and are wired by the shared
     # impl_fxns! template, so they are run for the non-commutative `sub`, `gt`, `xor` only (and for everything in thorough)
-    if forms and isinstance(forms[0], tuple) and op not in ("sub", "gt", "xor"):
+    if forms and isinstance(forms[0], tuple) and op not in ("sub",):
         sel[core] = [f for f in forms if f[0] in ("SS", "SMD", "MDS", "MDMD", "MDVD", "VDMD", "MDRD", "RDMD")]
     else:
         sel[core] = list(forms)
-    rest = [k for k in kinds if k != core and k not in ("i128", "u128", "f64")]
+    rest = [k for k in quick_scalar if k != core and k not in ("i128", "u128", "f64")]
     if op in ("mul", "div", "mod", "pow"):
         rest = []
     for _ in range(1):
